@@ -363,7 +363,9 @@ func kUnmarshal(args []string) (string, string) {
 		if t["clean"] == "t" && t["len"] == "ok" {
 			if want, ok := declaredBlockOf(data); ok {
 				_, got := readAllBlock(res.rec)
-				noRepair := !o.fixsyn && !o.fixwf
+				// repairs off: nothing may differ. Repairs on: only the documented ones, and a clean record (HTTP head properly
+				// terminated - that is what clean=t says) needs none: the syntax repair must leave its block alone as well
+				noRepair := !o.fixwf
 				if noRepair && got != hx(want) {
 					oracle = fmt.Sprintf("VIOL c07-block-incomplete read=%d declared=%d", len(unhxOrEmpty(got)), len(want))
 				}
